@@ -28,7 +28,69 @@ def configs(tier, seed):
       # the last shard of every strategy runs with a small bounded cache (refusals take part in the accounting)
       mx = 3 if s == n - 1 else 'inf'
       cfgs.append(dict(name='%s/%d/max%s' % (st, s, mx), strategy=st, shard=s, max=mx))
+    # the drains of the real writer loop, with backend faults: whatever the writer does with a batch after draining it,
+    # no datapoint may be handed out twice and no newer value may be overwritten by an older one
+    cfgs.append(dict(name='%s/writer' % st, strategy=st, mode='writer', max='inf'))
   return cfgs
+
+
+def gen_writer_workload(r):
+  nm = r.randint(1, 4)
+  metrics = ['m%d' % i for i in range(nm)]
+  ops = []
+  for i in range(r.randint(4, 12)):
+    c = r.random()
+    if c < 0.7:
+      ops.append(('store', r.choice(metrics), 100 + r.randrange(3) + (0.5 if r.random() < 0.15 else 0)))
+    elif c < 0.85:
+      ops.append(('query', r.choice(metrics)))
+    else:
+      ops.append(('sleep', r.choice([0.05, 0.5, 1.5])))
+  ops.append(('sleep', 2.5))
+  for i in range(r.randint(0, 3)):
+    ops.append(('store', r.choice(metrics), 100 + r.randrange(3)))
+  ops.append(('sleep', 2.5))
+  ops.append(('stop',))
+  return ops
+
+
+def run_writer_config(cfg, res, world):
+  from vlib import sched as S
+  r = gen.rng(cfg['seed'], 'C02w', cfg['name'])
+  label = cfg['strategy'] + '/writer'
+  excs = ['IOError', 'OSError', 'ValueError', 'KeyError']
+  seen = set()
+  for w in range(2 if cfg['tier'] == 'quick' else 8):
+    ops = gen_writer_workload(r)
+    keys = [(o[1], o[2]) for o in ops if o[0] == 'store']
+    has_dups = len(set(keys)) < len(keys)
+    plans = [{}] + [{i: excs[(i + w) % 4]} for i in range(8)] + [{i: excs[(i + j) % 4], j: excs[i % 4]} for i in range(6) for j in range(i + 1, 7, 2)]
+    for _ in range(10 if cfg['tier'] == 'quick' else 40):
+      plans.append({i: r.choice(excs) for i in range(30) if r.random() < 0.25})
+    for plan in plans:
+      for policy, desc in ((S.DeviationPolicy({}), 'baseline'),
+                           (S.RandomPolicy(gen.rng(r.random(), 'rp'), p=r.choice([0.05, 0.2, 0.5])), 'random')):
+        h = world.run(ops, ('loop',), policy=policy, fault_plan=plan, timeout=60)
+        res.count('schedules_executed')
+        res.count('writer_loop_schedules')
+        if h.sched_error is not None:
+          res.inconc('%s: %s' % (type(h.sched_error).__name__, h.sched_error))
+          return
+        nf = sum(1 for e in h.backend if str(e['outcome']).startswith('raise:') and e['outcome'] != 'raise:nofile')
+        res.count('writer_loop_backend_faults_reached', nf)
+        for k, v in h.window_hits.items():
+          res.count('window_' + k, v)
+        res.count('lockfree_invariant_evaluations', h.lockfree_points)
+        key = (hash(repr(ops)), repr(sorted(plan.items())), h.trace_hash)
+        if key not in seen:
+          seen.add(key)
+          res.case(hash(key), nontrivial=(h.switches >= 2 and has_dups and nf >= 1))
+        else:
+          res.evaluations += 1
+        for sig, msg in oracle(h):
+          res.violation(label + '/' + sig, '%s [strategy %s, real writer loop, fault plan %r, schedule %s deviations=%r] history=%r' % (
+            msg, cfg['strategy'], plan, desc, h.deviations, ops), dict(ops=ops, plan=plan, deviations=h.deviations),
+            case=dict(ops=ops, plan=plan, deviations=h.deviations))
 
 
 def gen_history(r, short=False):
@@ -132,6 +194,8 @@ def oracle(h):
 def run_config(cfg, res):
   from vlib import boot, cachesim
   ns = boot.boot('carbon-cache', {'CACHE_WRITE_STRATEGY': cfg['strategy'], 'MAX_CACHE_SIZE': cfg.get('max', 'inf'), 'USE_FLOW_CONTROL': False})
+  if cfg.get('mode') == 'writer':
+    return run_writer_config(cfg, res, cachesim.World(ns, trace_files=('cache.py', 'events.py', 'writer.py')))
   world = cachesim.World(ns)
   r = gen.rng(cfg['seed'], 'C02', cfg['name'])
   nh = (3, 3) if cfg['tier'] == 'quick' else (8, 10)
